@@ -37,6 +37,7 @@ SITE_POOL: List[Tuple[float, float]] = [
     (39.7459, -104.9880),  # 100 m north of site 1
 ]
 SCHEDULE_IDS = ["sh0", "Late", "NIGHT", "day_2"]  # ids are free text: capitals, digits, underscores
+FLEET_ID_STYLES = [("fa", "fb", "fc"), ("fa", "fb", "fc"), ("f1", "f10", "f100"), ("taxi_xl", "taxi", "xl")]
 VEHICLE_IDS = ["v1", "v2", "v3", "v10", "v11", "v20", "va", "vb", "v02", "v100"]  # lexical != numeric order
 ELECTRIC_PLUGS = ["DCFC", "LEVEL_2", "LEVEL_1"]
 ALL_PLUGS = ["DCFC", "LEVEL_2", "LEVEL_1", "GAS_PUMP"]
@@ -88,7 +89,7 @@ DEFAULT_PROFILE: Dict[str, Any] = {
     "nv": (2, 6),
     "socs": [0.0005, 0.003, 0.02, 0.08, 0.3, 0.8, 0.97, 0.995, 1.0],
     "mechs": ["leaf_50", "leaf_50", "tiny_bev", "toyota_corolla", "tiny_ice"],
-    "fleets": [0, 0, 2, 3],
+    "fleets": [0, 0, 1, 2, 3],
     "humans": True,
     "builtin": [False, True],
     "n_scripted": [1, 1, 2, 3],
@@ -128,11 +129,20 @@ def st_world(draw, prof: Optional[Dict[str, Any]] = None) -> Dict[str, Any]:
     if net == "gen" and (block or draw(st.booleans())):
         coords = [graph["nodes"][s_ % len(graph["nodes"])][1:] for s_ in sites]
     site = st.integers(0, nsites - 1)
+    # next-door sites: one site becomes the near twin (2-9 m away: another location cell, less than a second of driving) of another one
+    if draw(st.sampled_from(p.get("near_twins", [False, False, False, True]))):
+        k, j = draw(st.integers(0, nsites - 1)), draw(st.integers(0, nsites - 1))
+        dlat, dlon = draw(st.sampled_from([(0.00002, 0.0), (0.00004, 0.00003), (0.0, 0.00006), (0.00007, 0.00002)]))
+        if j != k:
+            base = coords or [SITE_POOL[s_] for s_ in sites]
+            coords = [list(c) for c in base]
+            coords[k] = [round(base[j][0] + dlat, 6), round(base[j][1] + dlon, 6)]
     dt = draw(st.sampled_from(p["steps"]))
     timeout = draw(st.sampled_from(p["timeouts"]))
     start = draw(st.sampled_from([0, 0, 0, 3600 * 5 + 7, 86400 - 900]))
     nf = draw(st.sampled_from(p["fleets"]))
-    fleet_ids = [f"f{c}" for c in "abc"[:nf]]
+    # fleet ids are free text (keys of the fleets file): plain ones, or ids that contain one another ("f1" / "f10" / "f100")
+    fleet_ids = list(draw(st.sampled_from(FLEET_ID_STYLES))[:nf]) if nf else []
     subset = st.lists(st.sampled_from(fleet_ids), unique=True, max_size=nf) if nf else st.just([])
 
     pool_world = bool(p.get("pooling_col")) and draw(st.sampled_from([False, False, True]))
